@@ -2,6 +2,7 @@ import ElfioVerif.Driver.Common
 import ElfioVerif.Driver.C07
 import ElfioVerif.Driver.Load
 import ElfioVerif.Driver.C14
+import ElfioVerif.Driver.C08
 open ElfioVerif.Drv
 
 def main (args : List String) : IO UInt32 := do
@@ -9,4 +10,5 @@ def main (args : List String) : IO UInt32 := do
   | ["c07"] => mainLoop C07.runCase; return 0
   | ["load"] => mainLoop Load.runCase; return 0
   | ["c14"] => mainLoop C14.runCase; return 0
+  | ["c08"] => mainLoop C08.runCase; return 0
   | _ => IO.eprintln "usage: driver <family>"; return 2
